@@ -2,7 +2,7 @@
    Audited statements only; proofs are in CIface/{Exn,Entries,C20}.v.  [entries], [prototypes],
    [enum_error_code] are regenerated from the working tree on every run (gen/Facts_CIface.v). *)
 From Coq Require Import List String ZArith Bool.
-Require Import PPLV.CIface.Exn PPLV.CIface.Entries PPLV.CIface.Spec PPLV.gen.Facts_CIface PPLV.CIface.C20 PPLV.CIface.TimeoutSpec PPLV.CIface.Timeouts.
+Require Import PPLV.CIface.Exn PPLV.CIface.Entries PPLV.CIface.Spec PPLV.gen.Facts_CIface PPLV.CIface.C20 PPLV.CIface.TimeoutSpec PPLV.CIface.Timeouts PPLV.CIface.PFunc.
 Import ListNotations.
 
 (* --- generic theorems about C++ catch semantics (any chain) --- *)
@@ -112,3 +112,13 @@ Qed.
 Theorem timeout_sequences : forall ch, In ch nonempty_chains -> forall (l : list tev) (s : sstate),
   code_run ch (embed s) l = (embed (fst (spec_run s l)), snd (spec_run s l)).
 Proof. exact timeout_sequences_l. Qed.
+
+(* the partial-function wrapper given to map_space_dimensions (model; the real class is compared with it exhaustively on
+   small arrays): empty codomain iff nothing is mapped; max_in_codomain is an upper bound of the images and is attained *)
+Theorem pfunc_has_empty_codomain : forall v, has_empty_codomain v = true <-> forall i, PFunc.maps v i = None.
+Proof. exact has_empty_codomain_spec. Qed.
+
+Theorem pfunc_max_in_codomain : forall v,
+  (forall i j, PFunc.maps v i = Some j -> j <= max_in_codomain v)
+  /\ (has_empty_codomain v = false -> exists i, PFunc.maps v i = Some (max_in_codomain v)).
+Proof. intros v; split; [exact (max_in_codomain_upper v) | exact (max_in_codomain_attained v)]. Qed.
